@@ -1,4 +1,6 @@
 From Coq Require Import Extraction ExtrOcamlBasic NArith.
-From DV Require Import Base.Outcome Base.Bytes Base.Names C03.Gen C03.Model C03.Spec.
+From DV Require Import Base.Outcome Base.Bytes Base.Names C03.Gen C03.Model C03.Spec C03.ModelWire C03.ModelText.
 Extraction Language OCaml.
-Extraction "../build/ml/C03/model.ml" run_log b_finish b_into_name b_append_origin hits_relname_255.
+Extraction "../build/ml/C03/model.ml" run_log b_finish b_into_name b_append_origin hits_relname_255
+  check_abs check_rel chain_new label_from_slice
+  name_from_chars rel_from_chars uncertain_from_chars display_name.
